@@ -270,6 +270,8 @@ def simp1(t):
             return C(BINF[op](a[1], b[1]))
         if op == 'Add' and a[0] == 'const' and b[0] == 'const' and isinstance(a[1], str) and isinstance(b[1], str):
             return C(a[1] + b[1])
+        if op == 'Add' and a[0] == b[0] and a[0] in ('list', 'tuple') and is_literal_seq(a) and is_literal_seq(b):
+            return (a[0], a[1] + b[1])
         return None
     if k == 'idx' and t[1][0] == 'ite' and (is_literal_seq(t[1][2]) or t[1][2][0] == 'ite') and (is_literal_seq(t[1][3]) or t[1][3][0] == 'ite') \
             and t[2][0] == 'const':
